@@ -47,6 +47,13 @@ def deviations(hist: History, max_dev: int) -> List[Tuple[History, Dict[str, Any
         items = list(hist)
         items[i] = (items[i][0], "=")
         out.append((tuple(items), {"scale": 1}, f"same-instant@{i}"))
+    # every timestamp late in the evening at -05:00 (the UTC date is the next day) / early in the morning at +09:00 (the UTC date is the day before),
+    # and a date window from the first to the last OWN date: it contains every transaction, so every taxable row must still be reported
+    from datetime import datetime, timezone
+
+    for tz, hour in ((-300, 1), (540, 18)):
+        out.append((tuple((it[0], it[1], tz) for it in hist), {"scale": 1, "own_window": True, "base": datetime(2020, 3, 1, hour, 30, 0, tzinfo=timezone.utc)},
+                    f"timestamps at UTC{tz // 60:+d}h, date window = first to last own date"))
     if max_dev >= 2:
         for i in range(1, len(hist)):
             for j in range(i + 1, len(hist)):
